@@ -76,6 +76,22 @@ func checkC07(c *Ctx) *report.Result {
 		ws = append(ws, c.footprintOf(c.evalDecoder(true, iv[0], iv[1], nil, nil)))
 		rs = append(rs, c.footprintOf(c.evalDecoder(false, iv[0], iv[1], nil, nil)))
 	}
+	// NR52's status bits by the cell each one reads (a channel register may change only its own channel's bit)
+	statusCell := map[int]string{}
+	{
+		ev := c.evalDecoder(false, 0xFF26, 0xFF26, nil, nil)
+		if iv, ok := ev.Result.(*ai.Int); ok {
+			for k := 0; k < 4; k++ {
+				if b := iv.Bits[k]; b.K == ai.BSrc {
+					info := c.W.It.Syms[b.S]
+					lbl := c.cellLabel(ai.CellKey{Obj: info.Cell.Obj, Path: ai.NormPath(info.Cell.Path)})
+					a, _ := arrayLabel(lbl)
+					statusCell[k] = a
+				}
+			}
+		}
+		r.Extra["nr52_status_cells"] = fmt.Sprint(statusCell)
+	}
 	r.Extra["write_intervals"] = len(ws)
 	r.Extra["read_intervals"] = len(rs)
 	pairs, shared := 0, 0
@@ -124,6 +140,12 @@ func checkC07(c *Ctx) *report.Result {
 					continue
 				}
 				if oracle.WriteMayAffect(w.ev.Lo, rd.ev.Lo) && oracle.WriteMayAffect(w.ev.Hi, rd.ev.Hi) {
+					// a channel's own registers change that channel's status bit in NR52, never another channel's
+					if ch := oracle.SoundChannelOf(w.ev.Lo); ch >= 0 && rd.ev.Lo == 0xFF26 && rd.ev.Hi == 0xFF26 && w.ev.Lo == w.ev.Hi {
+						if sc, known := statusCell[ch]; !known || sc != cell {
+							bad = append(bad, fmt.Sprintf("%s (NR52 status of another channel; channel %d's own is %s)", cell, ch+1, sc))
+						}
+					}
 					continue
 				}
 				bad = append(bad, cell)
@@ -150,6 +172,8 @@ func checkC07(c *Ctx) *report.Result {
 	r.Extra["pairs_examined"] = pairs
 	r.Extra["pairs_with_shared_location"] = shared
 	r.Instances["E-frame"] = pairs
+	r.Rule("E-alias", "within cartridge RAM a write changes only the written cell and its documented mirrors: MBC2's 512 half-bytes repeat every 0x200 (rule R-mbc2 of C09 re-stated), banked RAM cells are distinct per bank (R-bank)")
+	adopt(r, c.sibling("C09"), map[string]string{"R-mbc2": "E-alias", "R-bank": "E-alias"}, "a wrong mirror stride or bank index makes a write change the value read at another, undocumented address")
 	return r
 }
 
